@@ -97,8 +97,13 @@ def judge_matching(r: Rel, eos, Tn, tol, hyd, cj, name, v, got):
     """All clauses of the property for one returned matching. Returns the branch name or None (D9)."""
     vp, vm, Tp, Tm = got
     if _is_d9(eos, hyd, tol, v, vp, vm, Tp, Tm):
-        r.tag("skipped-nonconserved(D9)")
-        return None
+        if name in ("vmin", "slow1", "slow2", "v0.05", "v0.1"):
+            # slow walls: the region in which known finding D9 (C02) is identified generically - not judged again here
+            r.tag("skipped-nonconserved(D9)")
+            return None
+        # elsewhere a matching that violates the junction conditions is still a matching this property speaks about (e.g. the
+        # template approximation returned silently for a hybrid next to vJ has v- = c_b(Tn), not c_b(T-))
+        r.tag("nonconserved-matching-judged")
     extra = dict(vw=v, vp=vp, vm=vm, Tp=Tp / Tn, Tm=Tm / Tn)
     inrange = 0 < vp < 1 and 0 < vm < 1 and Tp > 0 and Tm > 0
     r.true(f"{name}:0<v<1,T>0", inrange, **extra)
